@@ -11,7 +11,7 @@ PID = "C02"
 
 def expected(case):
     N = case["N"]
-    lls = [drv.LL_ALPHABET[c] for c in case["ll"]]
+    lls = list(case["ll_values"]) if "ll_values" in case else [drv.LL_ALPHABET[c] for c in case["ll"]]
     o = case["opts"]
     if case["path"] == "inmem":
         E = list(range(N))
@@ -164,6 +164,19 @@ def build_cases(quick):
                                                   opts=dict(max_posterior_samples=mp, n_prior_samples=npri, n_linear_samples=1 if nb else 2,
                                                             n_batches=nb, randomize_prior_order=perm is not None,
                                                             return_all_logprobs=(nb is None))))
+    # a few LARGE libraries (size thresholds, block-wise code paths): N = 300 and 20000 rows, deterministic profile
+    for N, nbs in ((300, (None, 7)), (20000, (None,))) if quick else ((300, (None, 7, 301)), (20000, (None, 16)), (70000, (None,))):
+        llv = [-(((i * 0.37) % 5.0) + (0.0 if i % 97 else -0.0)) for i in range(N)]
+        llv[N // 3] = 0.5  # the unique maximum (positive)
+        uc = ["a" if i % 3 else "r" for i in range(N)]
+        inmem.append(dict(kind="rej", N=N, ll_values=llv, ucodes=uc, path="inmem", opts=dict(max_posterior_samples=None, n_linear_samples=1)))
+        for nb in nbs:
+            for perm in (None, [(i * 7 + 3) % N for i in range(N)] if N % 7 else None):
+                if N > 1000 and perm is not None:
+                    continue
+                filec.append(dict(kind="rej", N=N, ll_values=llv, ucodes=uc, path="file", perm=perm, pool=["serial"],
+                                  opts=dict(max_posterior_samples=None, n_prior_samples=None if N > 1000 else N - 1, n_linear_samples=1, n_batches=nb,
+                                            randomize_prior_order=perm is not None, return_all_logprobs=False)))
     return inmem, filec
 
 
@@ -211,7 +224,8 @@ def main():
         "libraries N<=4 (quick) / 5 over the likelihood alphabet {0, ln 1/2, -5, -inf} x every acceptance-relevant uniform answer "
         "per row (adjacent doubles around exp(ll-max): just below / equal / just above; 0 and 1-ulp for the maximum; 0 for ratio 0) "
         "x max_posterior_samples x n_linear_samples (in memory), and on the file paths (object cache / user file) x n_prior_samples "
-        "x randomize_prior_order (scripted permutations) x n_batches x pool (Serial, ModelPool chunking/order). A state is an "
+        "x randomize_prior_order (scripted permutations) x n_batches x pool (Serial, ModelPool chunking/order); plus a few large libraries "
+        "(300, 20000, thorough 70000 rows) against size thresholds. A state is an "
         "execution's (library, environment answers, options); a transition is one sampler call. Non-trivial: a strict subset is "
         "accepted or an at-the-edge uniform answer is present.",
     )
